@@ -2,8 +2,9 @@
 (* Property C17, key life cycle: Generate -> Export (PrivateKeyString) ->      *)
 (* Import (NewPrivateKey / ReadPrivateKey) -> Sign / Verify over ABSTRACT key  *)
 (* identities.  A private-key handle is either fresh from Generate(k) or read  *)
-(* back from an exported text; a text remembers the handle it was written      *)
-(* from.  The identity of a handle is found by following that provenance back  *)
+(* back from a text; a text was either exported from a handle (and remembers   *)
+(* it) or PROVIDED: written elsewhere (BIND, another implementation) for a key *)
+(* pair k whose DNSKEY is known.  The identity of a handle is found by following that provenance back  *)
 (* to the Generate: a signature verifies under the DNSKEY of k exactly when    *)
 (* the signing handle descends from Generate(k), however many export/import    *)
 (* cycles lie in between.                                                      *)
@@ -13,27 +14,36 @@ CONSTANTS Keys,      \* key identities, 1..n
           MaxOps     \* bound on the length of a behaviour (MC / Gen only)
 
 VARIABLES hs,        \* private-key handles: [origin |-> "gen", key |-> k] | [origin |-> "imp", text |-> j]
-          ts,        \* exported texts:      [from |-> handle index]
+          ts,        \* private-key texts:   [from |-> handle index, key |-> 0] exported | [from |-> 0, key |-> k] provided
           ss,        \* signatures:          [by |-> handle index]
           hist       \* the operations so far, with the results of the verifications
 
 vars == <<hs, ts, ss, hist>>
 
 RECURSIVE KeyOfH(_, _, _)
-KeyOfH(H, T, i) == IF H[i].origin = "gen" THEN H[i].key ELSE KeyOfH(H, T, T[H[i].text].from)
+KeyOfH(H, T, i) == IF H[i].origin = "gen" THEN H[i].key
+                   ELSE IF T[H[i].text].from = 0 THEN T[H[i].text].key
+                   ELSE KeyOfH(H, T, T[H[i].text].from)
 KeyOf(i) == KeyOfH(hs, ts, i)
-Generated == { hs[i].key : i \in { j \in 1..Len(hs) : hs[j].origin = "gen" } }
+Generated  == { hs[i].key : i \in { j \in 1..Len(hs) : hs[j].origin = "gen" } }
+Provided   == { ts[j].key : j \in { x \in 1..Len(ts) : ts[x].from = 0 } }
+Introduced == Generated \cup Provided        \* the key pairs whose DNSKEY exists
 
 Init == hs = <<>> /\ ts = <<>> /\ ss = <<>> /\ hist = <<>>
 
 Generate(k) ==
-  /\ k \notin Generated
+  /\ k \notin Introduced
   /\ hs' = Append(hs, [origin |-> "gen", key |-> k])
   /\ hist' = Append(hist, [op |-> "gen", key |-> k])
   /\ UNCHANGED <<ts, ss>>
+Provide(k) ==                          \* a private-key text for key pair k arrives from elsewhere
+  /\ k \notin Introduced
+  /\ ts' = Append(ts, [from |-> 0, key |-> k])
+  /\ hist' = Append(hist, [op |-> "provide", key |-> k])
+  /\ UNCHANGED <<hs, ss>>
 Export(i) ==
   /\ i \in 1..Len(hs)
-  /\ ts' = Append(ts, [from |-> i])
+  /\ ts' = Append(ts, [from |-> i, key |-> 0])
   /\ hist' = Append(hist, [op |-> "export", h |-> i])
   /\ UNCHANGED <<hs, ss>>
 Import(j, api) ==                      \* api: "new" = NewPrivateKey, "read" = ReadPrivateKey; same meaning
@@ -48,7 +58,7 @@ Sign(i) ==
   /\ UNCHANGED <<hs, ts>>
 VerifyResult(k, j) == KeyOf(ss[j].by) = k
 Verify(k, j) ==
-  /\ k \in Generated
+  /\ k \in Introduced
   /\ j \in 1..Len(ss)
   /\ hist' = Append(hist, [op |-> "verify", key |-> k, s |-> j, ok |-> VerifyResult(k, j)])
   /\ UNCHANGED <<hs, ts, ss>>
@@ -56,7 +66,8 @@ Verify(k, j) ==
 \* bounded behaviours; key identities are generated in order (symmetry)
 Next ==
   /\ Len(hist) < MaxOps
-  /\ \/ \E k \in Keys : k = Cardinality(Generated) + 1 /\ Generate(k)
+  /\ \/ \E k \in Keys : k = Cardinality(Introduced) + 1 /\ Generate(k)
+     \/ \E k \in Keys : k = Cardinality(Introduced) + 1 /\ Provide(k)
      \/ \E i \in 1..Len(hs) : Export(i)
      \/ \E j \in 1..Len(ts), api \in {"new", "read"} : Import(j, api)
      \/ \E i \in 1..Len(hs) : Sign(i)
@@ -65,13 +76,14 @@ Next ==
 -----------------------------------------------------------------------------
 TypeOK ==
   /\ \A i \in 1..Len(hs) : IF hs[i].origin = "gen" THEN hs[i].key \in Keys ELSE hs[i].text \in 1..Len(ts)
-  /\ \A j \in 1..Len(ts) : ts[j].from \in 1..Len(hs)
+  /\ \A j \in 1..Len(ts) : IF ts[j].from = 0 THEN ts[j].key \in Keys ELSE ts[j].from \in 1..Len(hs)
   /\ \A j \in 1..Len(ss) : ss[j].by \in 1..Len(hs)
 \* provenance is well-founded and ends in a generated key
-Rooted == \A i \in 1..Len(hs) : KeyOf(i) \in Generated /\ (hs[i].origin = "imp" => ts[hs[i].text].from < i)
+Rooted == \A i \in 1..Len(hs) : KeyOf(i) \in Introduced /\ (hs[i].origin = "imp" => ts[hs[i].text].from < i)
 \* interchangeability: a handle and every handle read back from one of its exports have one identity
 Interchangeable ==
-  \A i \in 1..Len(hs) : hs[i].origin = "imp" => KeyOf(i) = KeyOf(ts[hs[i].text].from)
+  \A i \in 1..Len(hs) : hs[i].origin = "imp" =>
+     LET t == ts[hs[i].text] IN KeyOf(i) = (IF t.from = 0 THEN t.key ELSE KeyOf(t.from))
 \* every recorded verification succeeded iff the signer descends from that key; distinct keys never verify each other
 VerifyIffSameKey ==
   \A n \in 1..Len(hist) : hist[n].op = "verify" =>
